@@ -44,6 +44,23 @@ loop 1
 // header entry h lists body miniblock mb, the miniblock type left aside
 spec fn listsIgnoringType(bp *baseProcessor, h block.MiniBlockHeader, mb *block.MiniBlock) bool = str(h.Hash) == str(mbHash(bp, mb)) && h.SenderShardID == mb.SenderShardID && h.ReceiverShardID == mb.ReceiverShardID && h.TxCount == uint32(len(mb.TxHashes))
 
+// lastIdx(bp, hdrs, body, n, k): index of the LAST entry among hdrs[0..n) whose hash is the hash of body miniblock k, -1 if none
+// (the map built by checkHeaderBodyCorrelation sends a hash to the last header entry carrying it); lastIncl: the same over hdrs[0..n].
+// Total recursive definition, split over two symbols so that the solvers do not unfold it without end: a step is unfolded
+// only where a lastIncl term is present (the loop-1 invariant provides it), never from lastIdx(.., len(hdrs), ..) downwards.
+spec fn lastIdx(bp *baseProcessor, hdrs []block.MiniBlockHeader, body *block.Body, n int, k int) int
+  axiom lastIdx(bp, hdrs, body, 0, k) == -1
+  axiom n >= 0 ==> lastIdx(bp, hdrs, body, n+1, k) == lastIncl(bp, hdrs, body, n, k)
+spec fn lastIncl(bp *baseProcessor, hdrs []block.MiniBlockHeader, body *block.Body, n int, k int) int
+  axiom lastIncl(bp, hdrs, body, n, k) == (str(hdrs[n].Hash) == str(mbHash(bp, body.MiniBlocks[k])) ? n : lastIdx(bp, hdrs, body, n, k))
+
+// identity, used as quantifier trigger: the map invariants index the body through ix(k) so that they are instantiated by E-matching on ix(..)
+spec fn ix(k int) int
+  axiom ix(k) == k
+
+// the header entry body miniblock k is matched with
+spec fn matched(bp *baseProcessor, hdrs []block.MiniBlockHeader, body *block.Body, k int) int = lastIdx(bp, hdrs, body, len(hdrs), k)
+
 func (bp *baseProcessor) checkHeaderBodyCorrelation(miniBlockHeaders []block.MiniBlockHeader, body *block.Body) (err error)
   requires body != nil
   ensures  same-number: err == nil ==> len(miniBlockHeaders) == len(body.MiniBlocks)
@@ -51,17 +68,23 @@ func (bp *baseProcessor) checkHeaderBodyCorrelation(miniBlockHeaders []block.Min
   ensures  every-miniblock-listed: err == nil ==> (forall k :: 0 <= k && k < len(body.MiniBlocks) ==> (exists j :: 0 <= j && j < len(miniBlockHeaders) && listsIgnoringType(bp, miniBlockHeaders[j], body.MiniBlocks[k])))
   ensures  type: err == nil ==> (forall k :: 0 <= k && k < len(body.MiniBlocks) ==> (exists j :: 0 <= j && j < len(miniBlockHeaders) && describes(bp, miniBlockHeaders[j], body.MiniBlocks[k])))
   ensures  injective: err == nil ==> (forall k, l :: 0 <= k && k < l && l < len(body.MiniBlocks) ==> str(mbHash(bp, body.MiniBlocks[k])) != str(mbHash(bp, body.MiniBlocks[l])))
+  // the same three clauses with the witness named: body miniblock k is described by header entry matched(k), and matched is injective
+  ensures  matched-entry-describes-miniblock: err == nil ==> (forall k :: 0 <= k && k < len(body.MiniBlocks) ==> body.MiniBlocks[k] != nil && 0 <= matched(bp, miniBlockHeaders, body, k) && matched(bp, miniBlockHeaders, body, k) < len(miniBlockHeaders) && describes(bp, miniBlockHeaders[matched(bp, miniBlockHeaders, body, k)], body.MiniBlocks[k]))
+  ensures  matched-entries-distinct: err == nil ==> (forall k, l :: 0 <= k && k < l && l < len(body.MiniBlocks) ==> matched(bp, miniBlockHeaders, body, k) != matched(bp, miniBlockHeaders, body, l))
   assigns  nothing
 
 loop 1
   invariant 0 <= i && i <= len(miniBlockHeaders)
-  invariant forall k :: 0 <= k && k < len(body.MiniBlocks) && has(mbHashesFromHdr, str(mbHash(bp, body.MiniBlocks[k]))) ==> pointsInto(mbHashesFromHdr[str(mbHash(bp, body.MiniBlocks[k]))], miniBlockHeaders)
-  invariant forall k :: 0 <= k && k < len(body.MiniBlocks) && has(mbHashesFromHdr, str(mbHash(bp, body.MiniBlocks[k]))) ==> str(mbHash(bp, body.MiniBlocks[k])) == str(miniBlockHeaders[elemIndex(mbHashesFromHdr[str(mbHash(bp, body.MiniBlocks[k]))], miniBlockHeaders)].Hash)
+  invariant map-points-to-last-entry: forall k :: 0 <= k && k < len(body.MiniBlocks) ==> lastIdx(bp, miniBlockHeaders, body, i+1, k) == lastIncl(bp, miniBlockHeaders, body, i, k) && (has(mbHashesFromHdr, str(mbHash(bp, body.MiniBlocks[ix(k)]))) ==> (pointsInto(mbHashesFromHdr[str(mbHash(bp, body.MiniBlocks[ix(k)]))], miniBlockHeaders) && elemIndex(mbHashesFromHdr[str(mbHash(bp, body.MiniBlocks[ix(k)]))], miniBlockHeaders) == lastIdx(bp, miniBlockHeaders, body, i, k) && str(miniBlockHeaders[lastIdx(bp, miniBlockHeaders, body, i, k)].Hash) == str(mbHash(bp, body.MiniBlocks[ix(k)]))))
 
 loop 2
   invariant 0 <= i && i <= len(body.MiniBlocks) && len(miniBlockHeaders) == len(body.MiniBlocks)
-  invariant forall k :: 0 <= k && k < i ==> body.MiniBlocks[k] != nil
-  invariant forall k :: 0 <= k && k < i ==> has(mbHashesFromHdr, str(mbHash(bp, body.MiniBlocks[k]))) && pointsInto(mbHashesFromHdr[str(mbHash(bp, body.MiniBlocks[k]))], miniBlockHeaders) && listsIgnoringType(bp, miniBlockHeaders[elemIndex(mbHashesFromHdr[str(mbHash(bp, body.MiniBlocks[k]))], miniBlockHeaders)], body.MiniBlocks[k])
-  invariant type: forall k :: 0 <= k && k < i ==> miniBlockHeaders[elemIndex(mbHashesFromHdr[str(mbHash(bp, body.MiniBlocks[k]))], miniBlockHeaders)].Type == body.MiniBlocks[k].Type
-  invariant injective: forall k, l :: 0 <= k && k < l && l < i ==> str(mbHash(bp, body.MiniBlocks[k])) != str(mbHash(bp, body.MiniBlocks[l]))
+  invariant ix(i) == i
+  invariant map-holds-unmatched-entries: forall k :: 0 <= k && k < len(body.MiniBlocks) && has(mbHashesFromHdr, str(mbHash(bp, body.MiniBlocks[ix(k)]))) ==> pointsInto(mbHashesFromHdr[str(mbHash(bp, body.MiniBlocks[ix(k)]))], miniBlockHeaders) && elemIndex(mbHashesFromHdr[str(mbHash(bp, body.MiniBlocks[ix(k)]))], miniBlockHeaders) == matched(bp, miniBlockHeaders, body, k) && str(miniBlockHeaders[matched(bp, miniBlockHeaders, body, k)].Hash) == str(mbHash(bp, body.MiniBlocks[ix(k)]))
+  invariant no-nil: forall k :: 0 <= k && k < i ==> body.MiniBlocks[k] != nil
+  invariant listed: forall k :: 0 <= k && k < i ==> 0 <= matched(bp, miniBlockHeaders, body, k) && matched(bp, miniBlockHeaders, body, k) < len(miniBlockHeaders) && listsIgnoringType(bp, miniBlockHeaders[matched(bp, miniBlockHeaders, body, k)], body.MiniBlocks[k])
+  invariant type: forall k :: 0 <= k && k < i ==> miniBlockHeaders[matched(bp, miniBlockHeaders, body, k)].Type == body.MiniBlocks[k].Type
+  // a matched header entry is consumed: the hash of a processed miniblock is no longer a key of the map (this is what makes the matching injective)
+  invariant injective-consumed: forall k :: 0 <= k && k < i ==> !has(mbHashesFromHdr, str(mbHash(bp, body.MiniBlocks[k])))
+  invariant injective: (forall k, l :: 0 <= k && k < l && l < i ==> matched(bp, miniBlockHeaders, body, k) != matched(bp, miniBlockHeaders, body, l)) && (forall k, l :: 0 <= k && k < l && l < i ==> str(mbHash(bp, body.MiniBlocks[k])) != str(mbHash(bp, body.MiniBlocks[l])))
 @*/
